@@ -379,8 +379,14 @@ def check(ctx):
            else f"percent axis is {ir.show(pe, maxdepth=5) if pe else None}")
     bmv = cols.get("batch_margin")
     txt = ir.show(bmv, maxdepth=10) if bmv else ""
-    okbm = ("numpy.diff(df['results_dem'].values, append=df['results_dem'].values[-1]) - numpy.diff(df['results_gop'].values, append=df['results_gop'].values[-1])" in txt
-            and "/ numpy.diff(df['results_weights'].values, append=df['results_weights'].values[-1])" in txt and ":=0>" in txt and "numpy.isnan" in txt)
+    def _fdiff(name):  # forward difference of a column, 0 after the last version
+        arr = ("attr", ("sub", DF, ("const", name)), "values")
+        return ("call", ("global", "numpy.diff"), (arr,), (("append", ("sub", arr, ("const", -1))),))
+    Q = ("bin", "/", ("bin", "-", _fdiff("results_dem"), _fdiff("results_gop")), _fdiff("results_weights"))
+    from ..frames import where_form
+    wf = where_form(bmv) if bmv else None
+    # the quotient with its NaN entries (0 / 0: a batch without votes) set to 0 - written as a mask assignment or as numpy.where
+    okbm = wf is not None and wf[0] == ("call", ("global", "numpy.isnan"), (Q,), ()) and wf[1] in (("lit", 0), ("lit", 0.0)) and wf[2] == Q
     ctx.ob("C17.R3.batch", f"{g.qualname}|b_i = margin of the batch after observation i (NaN -> 0)", okbm, g.where(),
            "batch margin = (diff dem - diff gop) / diff two-party votes, forward differences, empty batches 0" if okbm
            else f"batch margin is {txt[:200]}")
@@ -389,21 +395,26 @@ def check(ctx):
     cstat = ef.nested.get("compute_correction_statistics")
     ctx.require(cstat is not None, f"{ef.where()}: compute_correction_statistics not found")
     cs = ctx.builder().summarize(cstat)
-    filt = next((t_ for _, _, t_, _ in cs.assigns if t_[0] == "sub" and t_[1] == DF and t_[2][0] in ("bin", "cmp", "call")), None)
+    # the frame whose corrections are averaged: a row selection of the group's frame - one mask with &, or one selection after the other
+    from ..colwrites import row_filters
+    nm = [x for pc, t, n in cs.returns for x in ir.walk(t) if x[0] == "call" and ir.show(x[1]).endswith("nanmean") and x[2]
+          and x[2][0][0] == "attr" and x[2][0][2] == "values" and x[2][0][1][0] == "attr" and x[2][0][1][2] == "est_correction"]
+    filt = nm[0][2][0][1][1] if nm else None
+    parts = row_filters(filt, DF) if filt is not None else None
     okf = False
     detail = "filter not recognised"
-    if filt is not None and filt[0] == "sub" and filt[1] == DF and filt[2][0] == "bin" and filt[2][1] == "&":
-        parts = [filt[2][2], filt[2][3]]
+    if parts:
         dist = any(p[0] == "cmp" and p[1] in ("<", "<=") and p[2] == ("attr", DF, "dist_to_observed") and p[3][0] == "attr" and p[3][2] == "max_dist_to_observed"
                    and p[3][1] in (("param", "self"), ("global", "self")) for p in parts)
         nn = any(p[0] == "call" and p[1] == ("attr", ("attr", DF, "est_correction"), "notnull") or
                  (p[0] == "call" and p[1] == ("attr", ("attr", DF, "est_correction"), "notna")) for p in parts)
         okf = dist and nn
         detail = ("only corrections that exist (regular histories) and lie close to an actual observation are used" if okf
-                  else f"filter is {ir.show(filt[2], maxdepth=4)}: " + ("missing the distance condition" if not dist else "missing the non-null condition"))
+                  else f"rows are selected by {[ir.show(p, maxdepth=4) for p in parts]}: " + ("missing the distance condition" if not dist else "missing the non-null condition"))
+    elif filt is not None:
+        detail = f"the averaged corrections are those of {ir.show(filt, maxdepth=4)}: not a row selection of the group's frame"
     ctx.ob("C17.R6.filter", f"{cstat.qualname}|non-null and near an observation", okf, cstat.where(), detail)
-    means = [t for pc, t, n in cs.returns for x in ir.walk(t) if x[0] == "call" and ir.show(x[1]).endswith("nanmean") and x[2] and
-             x[2][0] == ("attr", ("attr", filt, "est_correction"), "values")] if filt is not None else []
+    means = nm if parts else []
     ctx.ob("C17.R6.mean", f"{cstat.qualname}|correction = mean over the filtered rows", bool(means), cstat.where(),
            "est_correction = nanmean of the filtered corrections" if means else "the averaged corrections are not the filtered ones")
     es = ctx.builder().summarize(ef)
